@@ -324,6 +324,13 @@ func c11Scenarios(tier string) []Spec {
 				}
 			}
 		}
+		// a predicate that excludes nothing: what the fetcher does around the caller's code must not matter
+		for _, c := range concs {
+			if c > 1 {
+				ls := loadSpec{Shape: sh, Loader: "fetchall", Conc: c, N: -1, ExcludeNone: true}
+				specs = append(specs, Spec{HBCache: true, RaceBound: 0, Shards: 1, Sc: makeLoad("C11", ls, judgeC11)})
+			}
+		}
 		// a timeout with no slow block at all: the timer may land anywhere
 		for _, c := range concs {
 			ls := loadSpec{Shape: sh, Loader: "multihash", Conc: c, N: -1, Timeout: true}
